@@ -35,7 +35,10 @@ func genC19(r *core.Rand, env *core.Env, run int) *Scenario {
 	ns := 1 + r.Intn(4)
 	np := 1 + r.Intn(3)
 	disconnects := r.Bool(0.4)
-	stalls := r.Bool(0.25)
+	// A reader that merely stops reading is not among the events the property
+	// quantifies over (SUBSCRIBE, PUBLISH, disconnects): with no write deadline a
+	// publisher may legitimately wait for it, so no verdict could be drawn.
+	stalls := false
 	if stalls {
 		// a stalled subscriber may hold a publisher up to the server's write
 		// deadline, never for ever: leave enough simulated time for that
